@@ -2,7 +2,7 @@
 //! (PROTOCOL §5) and the per-family op implementations (§6).
 
 use crate::elem::{arm, de_doc, disarm, ser_doc, tick_panic, Doc, Elem, FaultKind, Transport};
-use crate::parse::{ItKind, Op, Seg, SortKind, Step, Win};
+use crate::parse::{DrainEnd, ItKind, Op, Seg, SortKind, Step, Win};
 use std::cell::RefCell;
 use std::collections::hash_map::DefaultHasher;
 use std::collections::VecDeque;
@@ -464,7 +464,7 @@ impl<'o, T: Elem> Exec<'o, T> {
         }
     }
 
-    fn run_drain<D>(&self, d: Option<D>, steps: &[Step], leak: bool)
+    fn run_drain<D>(&self, d: Option<D>, steps: &[Step], end: DrainEnd)
     where
         D: DoubleEndedIterator<Item = T> + ExactSizeIterator,
     {
@@ -491,10 +491,28 @@ impl<'o, T: Elem> Exec<'o, T> {
                 _ => {}
             }
         }
-        if leak {
-            mem::forget(d);
-        } else {
-            drop(d);
+        match end {
+            DrainEnd::Leak => mem::forget(d),
+            DrainEnd::Drop => drop(d),
+            // consumed by value through `Iterator::fold` (what `for_each`, `count`, `last`, `sum` call) / through
+            // `DoubleEndedIterator::rfold` (`rev().for_each` …); the items are dropped afterwards, front to back
+            DrainEnd::Fold => {
+                let got = d.fold(Vec::new(), |mut a, x| {
+                    a.push(x);
+                    a
+                });
+                self.tok(got.len());
+                drop(got);
+            }
+            DrainEnd::RFold => {
+                let mut got = d.rfold(Vec::new(), |mut a, x| {
+                    a.push(x);
+                    a
+                });
+                got.reverse();
+                self.tok(got.len());
+                drop(got);
+            }
         }
         self.disarm();
     }
